@@ -121,7 +121,8 @@ def check(tier, seed, replay=None):
                         names[k] = txt
             recipes.append({"mode": mode, "names": [PL.cps(x) for x in names], "rows": rows, "opts": opts, "rowsep": PL.cps(rowsep),
                             "argv": argv + sel, "stdin": hexs(PL.input_bytes(rows_in))})
-    cases = [{"id": i, "argv": rc["argv"], "stdin": rc["stdin"]} for i, rc in enumerate(recipes)]
+    # a writer may take fewer bytes than it is offered (a pipe, a line-buffered terminal): every third run writes to one that takes at most 1..7 bytes a call
+    cases = [dict({"id": i, "argv": rc["argv"], "stdin": rc["stdin"]}, **({"wmax": rnd.choice([1, 2, 3, 7])} if i % 3 == 1 else {})) for i, rc in enumerate(recipes)]
     obs = run_cases(jvh, cases)
     recs = []
     for i, rc in enumerate(recipes):
